@@ -5,6 +5,7 @@ pub mod c03b;
 pub mod c04;
 pub mod c06;
 pub mod c07;
+pub mod c10;
 pub mod c11;
 pub mod c12;
 pub mod c13;
@@ -37,5 +38,6 @@ pub const REGISTRY: &[Entry] = &[
     Entry { id: "C18", level: "exploration", main: c18::main, replay: c18::replay },
     Entry { id: "C19", level: "exploration", main: c19::main, replay: c19::replay },
     Entry { id: "C20", level: "exploration", main: c20::main, replay: c20::replay },
+    Entry { id: "C10", level: "exploration", main: c10::main, replay: c10::replay },
     Entry { id: "C11", level: "exploration", main: c11::main, replay: c11::replay },
 ];
